@@ -28,7 +28,7 @@ ALL_DEFECTS = ['cleanup_name', 'sync_generation', 'created_done']
 CLAUSES = ['C13.oneLink', 'C13.sync', 'C13.handoff', 'C13.noRestart', 'C13.keep']
 PROPS = ['PropOneLink', 'PropSync', 'PropHandoff', 'PropNoRestart', 'PropKeep']
 ACTIONS = ['CacheCreate', 'CacheDelete', 'ReadyOn', 'ReadyOff', 'ContainerFinishes',
-           'MonitorCleanup', 'CleanupCompletes', 'ManagerRestart', 'NodeStart', 'OnCreated', 'OnModified',
+           'MonitorCleanup', 'CleanupCompletes', 'ManagerRestart', 'NodeStart', 'Crash', 'OnCreated', 'OnModified',
            'OnDeleted', 'Synchronize']
 
 RULE = ('a history counts when some step is a _synchronize over a non-empty cache or apps/ '
@@ -185,9 +185,11 @@ def _replay_chunk(jobs):
     for job in jobs:
         src, hist, seed, depth, instances, maxgen, late = job[:7]
         svc = len(job) > 7 and job[7]
+        crash = len(job) > 8 and job[8]
         if hist is None:
             eff, lines = drv.replay(None, rng=random.Random(seed), depth=depth,
-                                    instances=instances, maxgen=maxgen, late=late, svc=svc)
+                                    instances=instances, maxgen=maxgen, late=late, svc=svc,
+                                    crash=crash)
         else:
             eff, lines = drv.replay(hist, late=late)
         out.append(dict(src=src, history=eff, lines=lines, late=late))
@@ -344,8 +346,16 @@ def run(ctx):
         jobs.append(('rnd-svc', None, rng2.randrange(2 ** 30), rng2.choice([25, 40]),
                      ('a1', 'a2', 'a3') if k % 3 == 0 else ('a1', 'a2'), 3 if k % 2 else 2,
                      False, True))
+    # histories in which the manager is killed inside handlers (own stream as well)
+    rng3 = random.Random(ctx.seed * 15485863 + 11)
+    n_crash = 80 if ctx.quick else 3000
+    for k in range(n_crash):
+        jobs.append(('rnd-crash', None, rng3.randrange(2 ** 30), rng3.choice([16, 25, 40]),
+                     ('a1', 'a2', 'a3') if k % 3 == 0 else ('a1', 'a2'), 3 if k % 2 else 2,
+                     False, k % 4 == 0, True))
     ctx.log('%d histories (%d counterexamples, %d TLC-simulated, %d random, %d random with the '
-            'cleanup service)' % (len(jobs), len(cex), len(hist) - len(cex), n_rnd, n_svc))
+            'cleanup service, %d random with kills inside handlers)' % (
+                len(jobs), len(cex), len(hist) - len(cex), n_rnd, n_svc, n_crash))
     traces = _record(ctx, jobs, 8 if ctx.quick else 14)
     ctx.log('recorded %d traces, %d lines' % (len(traces), sum(len(t['lines']) for t in traces)))
     verdicts, stats = _validate(traces, timeout=300 if ctx.quick else 3000)
